@@ -48,6 +48,19 @@ def gen_config(rng):
     texts = {"system": [], "global": [], "local": [], "command": []}
     order = []
     asts = {}
+    # every entry counts, in git's order, also when the same (key, value) is listed more than once with an entry of the
+    # opposite effect in between (e.g. ~/.gitconfig and .git/config both carrying `include = refs/heads`)
+    defs = [(sym, list(ents)) for sym, ents in defs]
+    for i, (sym, ents) in enumerate(defs):
+        r = rng.random()
+        if r < 0.25 and len(ents) >= 2:
+            ents.append(ents[0])
+        elif r < 0.45:
+            ents += [("i", b"refs/heads"), ("x", b"refs/heads/feature"), ("i", b"refs/heads")]
+        elif r < 0.55:
+            ents += [("x", b"refs/tags/v1"), ("i", b"refs/tags"), ("x", b"refs/tags/v1")]
+    if not defs and rng.random() < 0.5:
+        defs = [("dup", [("i", b"refs/heads"), ("x", b"refs/heads/feature"), ("i", b"refs/heads")])]
     for sym, ents in defs:
         if rng.random() < 0.3:
             sym = sym[0].upper() + sym[1:]                  # capitals in the subsection are preserved by git
